@@ -107,6 +107,15 @@ func SchedulePromises(config *system.Config, tags map[string]string) gocoro.Coro
 				continue
 			}
 
+			if completion.Store.Results[0].Kind == t_aio.CreatePromiseAndTask {
+				// the scheduled promise routes to a receiver, it is created together
+				// with its task and the result has a different shape
+				if completion.Store.Results[0].CreatePromiseAndTask.PromiseRowsAffected == 0 {
+					slog.Warn("promise to be scheduled already exists", "promise", commands[i].Id, "schedule", result.Records[i].Id)
+				}
+				continue
+			}
+
 			if completion.Store.Results[0].CreatePromise.RowsAffected == 0 {
 				slog.Warn("promise to be scheduled already exists", "promise", commands[i].Id, "schedule", result.Records[i].Id)
 			}
